@@ -29,6 +29,14 @@ $OPENSSL req -newkey param:$EX/ec_parameters.pem -keyout px/key.pem -nodes -out 
   -subj "/O=Example Organization/CN=participant2_common_name"
 $OPENSSL x509 -req -days 999999 -in px/req.pem -CA foreign/ca.cert.pem -CAkey foreign/ca_key.pem -out px/cert.pem -set_serial 2
 rm px/req.pem
+# ... and two more with the subject names of participants 1 and 3 (the GUID, and with it the handshake role, follows
+# the subject name: between them the three impostors take both roles against the honest participants)
+for pair in "py 1" "pz 3"; do set -- $pair; mkdir -p $1
+  $OPENSSL req -newkey param:$EX/ec_parameters.pem -keyout $1/key.pem -nodes -out $1/req.pem \
+    -subj "/O=Example Organization/CN=participant$2_common_name"
+  $OPENSSL x509 -req -days 999999 -in $1/req.pem -CA foreign/ca.cert.pem -CAkey foreign/ca_key.pem -out $1/cert.pem -set_serial 1$2
+  rm $1/req.pem
+done
 
 sign() { # in out
   $OPENSSL smime -sign -in "$1" -text -out "$2" -signer $EX/permissions_ca.cert.pem -inkey $EX/permissions_ca_private_key.pem -passin $PW
